@@ -34,12 +34,15 @@ def run_all(chk, groups, tier):
         os.environ["VERIF_LONG"] = "1"
         try:
             for i in flaky:
-                r2 = _run_unit(args[i])
-                n1 = sum(o.get("status") == "unknown" for o in res[i].get("obligations", []))
-                n2 = sum(o.get("status") == "unknown" for o in r2.get("obligations", [])) if not (r2.get("unsupported") or r2.get("crash")) else n1 + 1
-                if n2 < n1:
-                    r2["retried_alone"] = True
-                    res[i] = r2
+                for attempt in range(2):        # two serial attempts: z3 is sensitive to timing once a timeout has been hit
+                    r2 = _run_unit(args[i])
+                    n1 = sum(o.get("status") == "unknown" for o in res[i].get("obligations", []))
+                    n2 = sum(o.get("status") == "unknown" for o in r2.get("obligations", [])) if not (r2.get("unsupported") or r2.get("crash")) else n1 + 1
+                    if n2 < n1:
+                        r2["retried_alone"] = True
+                        res[i] = r2
+                    if n2 == 0:
+                        break
         finally:
             os.environ.pop("VERIF_LONG", None)
     chk.add_units(res)
